@@ -229,8 +229,7 @@ MemRsp(g, q) ==         \* ... executes any received request and answers it
      THEN /\ memIn' = [memIn EXCEPT ![g] = Append(@, MRsp("d", q.id, ReadMem(g, q.addr, q.n)))]
           /\ UNCHANGED mem
      ELSE /\ memIn' = [memIn EXCEPT ![g] = Append(@, MRsp("wd", q.id, <<>>))]
-          /\ mem' = [mem EXCEPT ![g] = [a \in DOMAIN @ |->
-                       IF a >= q.addr /\ a < q.addr + q.n THEN q.data[a - q.addr + 1] ELSE @[a]]]
+          /\ mem' = [mem EXCEPT ![g] = [a \in q.addr..(q.addr + q.n - 1) |-> q.data[a - q.addr + 1]] @@ @]
   /\ UNCHANGED <<reqv, ownv, remOut, remIn, memOut, net, histv>>
 
 \* ------------------------------------------------------------------ MC next
